@@ -336,6 +336,8 @@ class Fold:
     def ite(self, c, a, b):
         while isinstance(c, tuple) and len(c) == 2 and c[0] == "!":
             c, a, b = c[1], b, a                 # ite(!x, a, b) == ite(x, b, a): one canonical polarity
+        if (isinstance(a, tuple) and a and a[0] == "cat") or (isinstance(b, tuple) and b and b[0] == "cat"):
+            return a if a == b else ("ite", c, a, b)
         if isinstance(a, tuple) and isinstance(b, tuple) and len(a) == 3 and len(b) == 3 and a[0] == "pair" and b[0] == "pair":
             return ("pair", self.ite(c, a[1], b[1]), self.ite(c, a[2], b[2]))
         if (self.is_condval(a) or self.is_condval(b)) and not isinstance(a, Matrix) and not isinstance(b, Matrix):
@@ -603,6 +605,15 @@ class Fold:
         t = n.get("type") or ""
         if k == "opcall":
             op = n["op"]
+            if op in ("+", "+=") and len(args) == 2 and re.search(r"basic_string", (callee or "") + " " + (n.get("type") or "")):
+                # std::string concatenation keeps its order: ("cat", piece, piece, ...)
+                flat = []
+                for x_ in args:
+                    flat += list(x_[1:]) if isinstance(x_, tuple) and x_ and x_[0] == "cat" else [x_]
+                val = ("cat",) + tuple(flat)
+                if op == "+=":
+                    self.store(unwrap(n["args"][0]), val, env, n)
+                return val
             if op in ("+", "-", "*", "/") and len(args) == 2:
                 a0, a1 = args
                 if op in ("*", "/") and isinstance(a0, Matrix) and isinstance(a1, Matrix) and a0.shape == a1.shape \
@@ -1113,6 +1124,12 @@ class Fold:
         except Terminated:
             pass
         del self.guards[mark:]
+        if getattr(self, "loops", None) and self.loops[-1]["lid"] == lid:
+            self.loops[-1]["step"] = {key: benv.get(key) for key in start}
+        else:
+            for l_ in getattr(self, "loops", []):
+                if l_["lid"] == lid:
+                    l_["step"] = {key: benv.get(key) for key in start}
         # accumulation idioms
         for key, (old, a) in start.items():
             new = benv.get(key)
